@@ -30,7 +30,7 @@ pub fn render_cc(c: &ConcCase, r: &RunResult) -> String {
     .iter()
     .enumerate()
     .map(|(i, t)| {
-      let case = Case { root: Node::Src(0, Src::Empty), hots: vec![], hot_illformed: false, conn: None, recorders: vec![], actions: t.clone() };
+      let case = Case { root: Node::Src(0, Src::Empty), hots: vec![], hot_illformed: false, conn: None, conn_take: None, recorders: vec![], actions: t.clone() };
       let s = case.show();
       format!("T{}[{}]", i + 1, s.split(" | ").nth(2).unwrap_or("").trim())
     })
@@ -144,7 +144,7 @@ pub fn c11_strategy(_ctx: &Ctx) -> BoxedStrategy<C11Case> {
         root = Node::Un(Op::Take(n), Box::new(root));
       }
       root.renumber();
-      let case = Case { root, hots, hot_illformed: false, conn: None, recorders: vec![vec![]], actions: vec![Action::Subscribe(0)] };
+      let case = Case { root, hots, hot_illformed: false, conn: None, conn_take: None, recorders: vec![vec![]], actions: vec![Action::Subscribe(0)] };
       C11Case { cc: ConcCase { case, threads, sched }, shape: shape.to_string(), scripts: out_items, take }
     })
     .boxed()
@@ -330,7 +330,7 @@ pub fn c19_strategy(_ctx: &Ctx) -> BoxedStrategy<C19Case> {
           t.push(Action::Advance(0));
         }
       }
-      let case = Case { root, hots, hot_illformed: false, conn: None, recorders: vec![vec![]], actions: vec![Action::Subscribe(0)] };
+      let case = Case { root, hots, hot_illformed: false, conn: None, conn_take: None, recorders: vec![vec![]], actions: vec![Action::Subscribe(0)] };
       C19Case { cc: ConcCase { case, threads, sched }, shape: shape.to_string() }
     })
     .boxed()
@@ -445,7 +445,7 @@ pub fn c12_strategy(ctx: &Ctx) -> BoxedStrategy<C12Case> {
       let case = Case {
         root,
         hots: vec![kind.clone()],
-        hot_illformed: false, conn: None,
+        hot_illformed: false, conn: None, conn_take: None,
         recorders: vec![vec![], vec![], vec![]],
         actions: pre_actions,
       };
@@ -694,7 +694,7 @@ pub fn c09_strategy(_ctx: &Ctx, for_c05: bool) -> BoxedStrategy<C09Case> {
       let case = Case {
         root,
         hots: if hot { vec![HotKind::Harness] } else { vec![] },
-        hot_illformed: false, conn: None,
+        hot_illformed: false, conn: None, conn_take: None,
         recorders: vec![vec![]],
         actions: vec![Action::Subscribe(0)],
       };
@@ -864,7 +864,7 @@ pub fn c05_plain_strategy(_ctx: &Ctx) -> BoxedStrategy<C05Case> {
       t.push(Action::Unsub(0));
       threads.push(t);
       let hots = if two { vec![kind, HotKind::Harness] } else { vec![kind] };
-      let case = Case { root, hots, hot_illformed: false, conn: None, recorders: vec![vec![]], actions: vec![Action::Subscribe(0)] };
+      let case = Case { root, hots, hot_illformed: false, conn: None, conn_take: None, recorders: vec![vec![]], actions: vec![Action::Subscribe(0)] };
       C05Case { cc: ConcCase { case, threads, sched } }
     })
     .boxed()
